@@ -718,3 +718,78 @@ def write_ref_post(prop):
 def write_ref_unit(prop):
     return Unit(f'{prop}.write_chunk_ref', REPO_PY, 'Repository.restore._write_chunk_ref', write_ref_setup,
                 write_ref_post(prop), prop=prop)
+
+
+# ------------------------------------------------------------------ restore(): which snapshots enter the plan, in which order
+import ast as _ast
+
+
+def _is_assign_to(name):
+    return lambda s: isinstance(s, _ast.Assign) and isinstance(s.targets[0], _ast.Name) and s.targets[0].id == name
+
+
+def select_setup(b):
+    me = shared.repo_self(b, cache=False)
+    b.me = me
+    L = shared.Loaded()
+    b.L = L
+    b.sym('snapshot_regex', Opt(STR))
+
+    def load(interp, st, args, kwargs):
+        st.emit('load_snapshots', kwargs=dict(kwargs))
+        yield st, IterSpec(L.n, lambda k: (SV(STR, L.path(k)), SV(BODY, L.body(k))))
+
+    b.assume(L.n >= 0)
+    me._attrs['_load_snapshots'] = Model('_load_snapshots', load)
+
+    def snapdata_getitem(interp, st, v, idx):
+        if idx == 'utc_timestamp':
+            yield st, SV(STR, UF('utc_timestamp', SNAPDATA, STR)(v.z))
+        elif idx == 'files':
+            yield st, SV(List(Ref(FILEREC)), files_of(v.z))
+        else:
+            raise sym.Unsupported(f'snapshot_data[{idx!r}]')
+
+    SNAPDATA.getitem = snapdata_getitem
+
+
+def select_post(prop):
+    def post(res):
+        b = res.builder
+        L = b.L
+        for p in res.paths:
+            if p.kind not in ('normal', 'return'):
+                continue
+            snaps = p.st.lookup('snapshots')
+            lc = snaps.ty.cls
+            n = p.st.heap.read(lc, 'len', snaps.z)
+            arr = p.st.heap.read(lc, 'arr', snaps.z)
+            j, j2, i = z3.Ints('sj sj2 si')
+            ts = lambda body: UF('utc_timestamp', SNAPDATA, STR)(Opt(SNAPDATA).val(body_data(body)))
+            # C06.restore.own_only: only bodies whose private part could be decrypted enter the plan
+            res.oblige(p, f'{prop}.select.only_readable_bodies', z3.ForAll([j], z3.Implies(
+                z3.And(0 <= j, j < n), z3.Not(Opt(SNAPDATA).is_none(body_data(z3.Select(arr, j)))))))
+            # every plan entry is a loaded body, and every readable loaded body is in the plan
+            res.oblige(p, f'{prop}.select.entries_are_loaded_bodies', z3.ForAll([j], z3.Implies(
+                z3.And(0 <= j, j < n), z3.Exists([i], z3.And(0 <= i, i < L.n, z3.Select(arr, j) == L.body(i))))))
+            fc, so = p.events('filter_comp'), p.events('sorted')
+            if len(fc) == 1 and len(so) == 1:
+                w = lambda ii: so[0].data['pinv'](fc[0].data['finv'](ii))       # explicit witness position
+                res.oblige(p, f'{prop}.select.all_readable_bodies_included', z3.ForAll([i], z3.Implies(
+                    z3.And(0 <= i, i < L.n, L.readable(i)), z3.And(0 <= w(i), w(i) < n, z3.Select(arr, w(i)) == L.body(i)))))
+            else:
+                res.oblige(p, f'{prop}.select.all_readable_bodies_included', z3.BoolVal(False))
+            # C15.restore.selects_newest: newest first (descending timestamp text), so the first occurrence of a
+            # path in the planning loop is the newest one
+            res.oblige(p, f'{prop}.select.newest_first', z3.ForAll([j, j2], z3.Implies(
+                z3.And(0 <= j, j <= j2, j2 < n), ts(z3.Select(arr, j2)) <= ts(z3.Select(arr, j)))))
+            lr = p.events('load_snapshots')
+            rx = b.st.lookup('snapshot_regex')
+            res.oblige(p, f'{prop}.select.snapshot_filter_forwarded', z3.BoolVal(len(lr) == 1) if len(lr) != 1 else z3.BoolVal(
+                lr[0].data['kwargs'].get('snapshot_regex') is rx))
+    return post
+
+
+def select_unit(prop):
+    return Unit(f'{prop}.restore_select', REPO_PY, 'Repository.restore', select_setup, select_post(prop),
+                stmt=(_is_assign_to('snapshots_gen'), _is_assign_to('file_re')), prop=prop)
